@@ -6,7 +6,13 @@
    C11.check_C11_sound: table in [0,1] and non-increasing, p-values inside the brackets of
    the exact tails, p-values monotone, round trips) -- plus panics inside the property's
    domain, which are not values and are reported by this driver directly;
-   DIFF: the observations differ from the bit-exact binary64 model. *)
+   DIFF: the observations differ from the bit-exact binary64 model.
+   Nothing fails open: the checker run is DistStrictModel.check_C11_strict_fails (= check_C11_fails on the
+   domain: C11_strict_checker_eq) whose kind 8 "bracket probes handed over but the exact scale could not be
+   established" is printed as DIFF cannot-judge; and what each case was judged on (domain, which exact table,
+   how many probes bracket-checked, hypotheses of the binary64 theorems) is appended as one line to
+   c11-judged.log next to this executable (env C11_JUDGED_LOG=0 disables it), summarised into the evidence
+   notes by props/c11.py. *)
 open Dist_model
 
 let rec nat_of_int n = if n <= 0 then O else S (nat_of_int (n - 1))
@@ -75,6 +81,17 @@ let max_grid = 20000.0
 let float_of_z (z : z) : float =
   let rec fpos = function XH -> 1.0 | XO p -> 2.0 *. fpos p | XI p -> 2.0 *. fpos p +. 1.0 in
   match z with Z0 -> 0.0 | Zpos p -> fpos p | Zneg p -> -. fpos p
+(* one line per case: what the verdict rests on (counted and reported by props/c11.py `extra`) *)
+let judged_log : out_channel option Lazy.t = lazy (
+  match (try Sys.getenv "C11_JUDGED_LOG" with Not_found -> "") with
+  | "0" -> None
+  | path ->
+      let path = if path = "" then Filename.concat (Filename.dirname Sys.executable_name) "c11-judged.log" else path in
+      (try Some (open_out_gen [Open_wronly; Open_creat; Open_append] 0o644 path) with _ -> None))
+let log_judged id fields =
+  match Lazy.force judged_log with
+  | Some oc -> output_string oc (id ^ " " ^ String.concat " " (List.map (fun (k, v) -> k ^ "=" ^ v) fields) ^ "\n"); flush oc
+  | None -> ()
 let prof = (try Sys.getenv "DIST_PROF" <> "" with Not_found -> false)
 let tick = ref (Sys.time ())
 let lap name = if prof then begin let t = Sys.time () in Printf.eprintf "  %s %.3fs\n" name (t -. !tick); tick := t end
@@ -105,7 +122,7 @@ let process line =
     | p :: _, _ -> Printf.printf "%s PROPFAIL %s\n" id p
     | [], d :: _ -> Printf.printf "%s DIFF %s\n" id d
     | [], [] -> Printf.printf "%s OK\n" id in
-  if obs = "bgerr" then (Printf.printf "%s OK\n" id)
+  if obs = "bgerr" then (log_judged id [("domain", "background-rejected")]; Printf.printf "%s OK\n" id)
   else if obs = "HARNESSPANIC" || obs = "" then (Printf.printf "%s DIFF harness-failed\n" id)
   else begin
     let m_bits : int64 list list =
@@ -119,6 +136,17 @@ let process line =
     let mvals : F64.t list list = List.map (List.map f64_of_f32bits) m_bits in
     let in_scope = c11_in_scope mvals bg64 in
     scope := in_scope;
+    (* the lower edge of the domain: without any non-infinite cell (M = 0, only -inf cells) the construction is the
+       panic of min_by(..).unwrap(), outside the property's quantifier (C11_no_finite_cell_panics) *)
+    let has_cell = c11_has_finite_cell mvals in
+    let domain = if in_scope then "in" else if not has_cell then "out:no-finite-cell" else "out:non-finite-cell" in
+    let bg_ok = f64_bg_ok bg64 and dims_ok = f64_dims_ok (nat_of_int (List.length bg64)) (nat_of_int mrows) in
+    (* f32_matrix_ok_any: no NaN cell, and two different non-infinite cells or a constant of magnitude <= 2^52 -- then the
+       scale part is a theorem (C11_scale_pred_f32) *)
+    let f32_ok = f32_matrix_ok_any (List.map (List.map z_of_u64) m_bits) in
+    let jl = ref [("domain", domain); ("M", string_of_int mrows);
+                  ("f64hyp", if bg_ok && dims_ok then "yes" else "no"); ("f32ok", if f32_ok then "yes" else "no")] in
+    let note k v = jl := !jl @ [(k, v)] in
     if not (f64_ninf_agrees cells64) then df "model-selfcheck disc_ninf";
     lap "parse";
     (* build_fast = build (C11_build_fast_eq): linear-time reversal of the pdf *)
@@ -132,8 +160,18 @@ let process line =
      | (Panic s), false -> df (Printf.sprintf "build: model panics at site %d, implementation did not" (int_of_nat s))
      | (Err _ | OutOfFuel), _ -> df "build: model error"
      | Panic s, true ->
+         note "build" (Printf.sprintf "panic-site-%d(both)" (int_of_nat s));
+         (* a matrix without a finite cell must panic at site 1 and nowhere else *)
+         if not has_cell && int_of_nat s <> 1 then df (Printf.sprintf "build: no finite cell but model panics at site %d" (int_of_nat s));
          if in_scope then pf (Printf.sprintf "build-panic site=%d (matrix inside the property's domain)" (int_of_nat s))
      | Ok d, false ->
+         note "build" "ok";
+         if not has_cell then df "build: no finite cell but the model answers";
+         (* hypotheses of the binary64 theorems on this case (C11_table_binary64 needs f64hyp; C11_pvalue_monotone_binary64_built
+            also the scale part) *)
+         note "scalepred" (if f64_scale_pred d then "yes" else "no");
+         (* C11_scale_pred_f32 on this case: a model self-check like disc_ninf (cannot fail unless extraction and proof diverge) *)
+         if f32_ok && not (f64_scale_pred d) then df "model-selfcheck f32_matrix_ok_any without f64_scale_pred";
          (* ---------- the table ---------- *)
          let runs = List.map (fun t -> match String.split_on_char '*' t with
              | [b; c] -> (u64_of_string b, int_of_string c) | _ -> failwith "bad rle") (split ',' (oget "sf")) in
@@ -273,7 +311,14 @@ let process line =
          (* ---------- the property, decided by the extracted checker ---------- *)
          let pvl = List.rev !pv_list and brl = List.rev !br_list and rtl = List.rev !rt_list in
          (* check_C11_red_fails grid = check_C11_fails (C11_red_checker_eq): weights without their common power of two *)
-         let fails = check_C11_red_fails grid mvals bg64 impl_sf_vals pvl
+         let nfin = List.length (List.filter (fun (s64, _) -> x_f64_is_finite s64) pvl) in
+         note "bracket" (if not in_scope then "none:out-of-domain"
+                         else if grid then "grid" else if exact then "words"
+                         else "none:too-many-words");
+         note "judged" (Printf.sprintf "%d/%d" (List.length brl) nfin);
+         note "roundtrips" (string_of_int (List.length rtl));
+         (* check_C11_strict_fails = check_C11_red_fails ++ kind 8 (cannot judge) *)
+         let fails = check_C11_strict_fails grid mvals bg64 impl_sf_vals pvl
              (List.map (fun (_, _, _, x) -> x) brl) (List.map (fun (_, _, _, _, _, x) -> x) rtl) in
          lap "check_C11";
          List.iter (fun (kind, idx) ->
@@ -322,7 +367,12 @@ let process line =
                  let label = if inexact then "unscale-inexact roundtrip" else "roundtrip" in
                  pf (Printf.sprintf "%s %s#%d p=%.17g score=%.9g pvalue(score(p))=%.17g > p" label tag i
                        (Int64.float_of_bits pbits) (Int32.float_of_bits (Int64.to_int32 (u64_of_string sobs))) rtv)
+             | 8, _ ->
+                 (* never inside the domain for K >= 2 (C11_bracket_always_judged): a broken tie, not OK *)
+                 note "unjudged" "kind8";
+                 df "cannot-judge: bracket probes handed over but the exact scale could not be established (check_C11_strict_fails kind 8)"
              | k, i -> pf (Printf.sprintf "check_C11 kind=%d index=%d" k i)) fails);
+    log_judged id !jl;
     finish ()
   end
 
